@@ -2,7 +2,7 @@
   M12 — model of `lemoncheesecake/matching/*`:
 
   * `Val`            : the value domain the matchers are applied to (None, bool, int, half-integer
-                       float, str, list, dict with string keys) with Python's `==`, ordering (with
+                       float, str, list, dict with keys of mixed scalar types `DKey`) with Python's `==`, ordering (with
                        `TypeError`), `in`, `len`, iteration, subscripting and `type(x)`;
   * `jsonify`        : `json.dumps(x, ensure_ascii=False)` (helpers/text.py);
   * `Tr`             : `MatcherDescriptionTransformer` (matcher.py), `Tr.apply` = its `__call__`;
@@ -28,7 +28,7 @@
   unrepaired tree for the refutation theorems.
 
   Not modelled (restrictions of the model, named in design.d/C16.md): `match_pattern`, `is_text`,
-  `is_json`; tuples; NaN, inf, negative zero and floats that are not half-integers; dict keys other than `str`;
+  `is_json`; tuples; NaN, inf, negative zero and floats that are not half-integers; dict keys that `json.dumps` rejects (tuples, …);
   non-list arguments of `has_items/has_only_items/is_in`; `is_between` bounds other than int/float;
   `DISPLAY_DETAILS_WHEN_EQUAL = False`; `\w` is ASCII-only in the verb transformation.
   Core Lean only.
@@ -112,6 +112,32 @@ def capitalize : Str → Str
 
 /-! ## Values -/
 
+/-- a dict key: the hashable scalars that `json.dumps` accepts as keys (`None`, `bool`, `int`, `float`, `str`);
+    one dict may mix them (`{1: "one", "two": 2, None: 0}`) -/
+inductive DKey
+  | none
+  | bool (b : Bool)
+  | int (i : Int)
+  | float (h : Int)                         -- the float `h / 2`
+  | str (s : Str)
+deriving Repr, DecidableEq, Inhabited
+
+/-- numeric value of a key in halves (`True == 1 == 1.0` are ONE key of a Python dict) -/
+def DKey.num : DKey → Option Int
+  | .bool b => some (if b then 2 else 0)
+  | .int i => some (2 * i)
+  | .float h => some h
+  | _ => Option.none
+
+/-- `k1 == k2` (consistent with `hash`): the test a dict lookup performs -/
+def DKey.eq : DKey → DKey → Bool
+  | .none, .none => true
+  | .str a, .str b => a == b
+  | a, b =>
+    match a.num, b.num with
+    | some x, some y => x == y
+    | _, _ => false
+
 inductive Val
   | none
   | bool (b : Bool)
@@ -119,7 +145,7 @@ inductive Val
   | float (h : Int)                         -- the float `h / 2`
   | str (s : Str)
   | list (xs : List Val)
-  | dict (ks : List Str) (vs : List Val)    -- insertion-ordered `{ks[i]: vs[i]}`, keys distinct
+  | dict (ks : List DKey) (vs : List Val)   -- insertion-ordered `{ks[i]: vs[i]}`, keys pairwise distinct under `==`
 deriving Repr, Inhabited
 
 inductive PyErr
@@ -142,9 +168,19 @@ def numOf : Val → Option Int
   | .float h => some h
   | _ => Option.none
 
-/-- `d[k]` on the association representation of a dict -/
-def lookup (k : Str) : List Str → List Val → Option Val
-  | k' :: ks, v :: vs => if k = k' then some v else lookup k ks vs
+/-- the key as a value (`for k in d`) -/
+def DKey.toVal : DKey → Val
+  | .none => .none | .bool b => .bool b | .int i => .int i | .float h => .float h | .str s => .str s
+
+/-- the value as a dict key; `none` = unhashable (`list`, `dict`) -/
+def Val.toKey? : Val → Option DKey
+  | .none => some .none | .bool b => some (.bool b) | .int i => some (.int i) | .float h => some (.float h)
+  | .str s => some (.str s)
+  | .list _ => Option.none | .dict _ _ => Option.none
+
+/-- `d[k]` on the association representation of a dict (keys compared the way `dict` does: `hash` + `==`) -/
+def lookup (k : DKey) : List DKey → List Val → Option Val
+  | k' :: ks, v :: vs => if k.eq k' then some v else lookup k ks vs
   | _, _ => Option.none
 
 mutual
@@ -163,7 +199,7 @@ def pyEqList : List Val → List Val → Bool
   | x :: xs, y :: ys => pyEq x y && pyEqList xs ys
   | _, _ => false
 /-- every entry of the first dict is in the second with an equal value -/
-def dictSub : List Str → List Val → List Str → List Val → Bool
+def dictSub : List DKey → List Val → List DKey → List Val → Bool
   | k :: ks, v :: vs, ks', vs' =>
     (match lookup k ks' vs' with
      | some v' => pyEq v v'
@@ -229,7 +265,7 @@ def pyLen : Val → Except PyErr Nat
 def pyIter : Val → Except PyErr (List Val)
   | .str s => .ok (s.map fun c => .str [c])
   | .list xs => .ok xs
-  | .dict ks vs => .ok ((ks.zip vs).map fun kv => .str kv.1)
+  | .dict ks vs => .ok ((ks.zip vs).map fun kv => kv.1.toVal)
   | _ => .error .typeError
 
 /-- `any(item == x for item in xs)` — `x in xs` for a list -/
@@ -243,11 +279,9 @@ def pyIn (x : Val) : Val → Except PyErr Bool
     | .str n => .ok (isInfix n s)
     | _ => .error .typeError                    -- 'in <string>' requires string as left operand
   | .dict ks vs =>
-    match x with
-    | .str k => .ok ((lookup k ks vs).isSome)
-    | .list _ => .error .typeError              -- unhashable
-    | .dict _ _ => .error .typeError            -- unhashable
-    | _ => .ok false                            -- hashable, but every key is a str
+    match x.toKey? with
+    | some k => .ok ((lookup k ks vs).isSome)
+    | Option.none => .error .typeError          -- unhashable type: 'list' / 'dict'
   | _ => .error .typeError                      -- argument of type … is not iterable
 
 /-- `xs.remove(x)` when `x in xs` -/
@@ -264,7 +298,8 @@ deriving Repr, DecidableEq, Inhabited
 /-- `d[key]` as `KeyPathMatcher.get_entry` uses it: `none` = `KeyError` (also raised by the code for
     `TypeError`/`IndexError`) -/
 def getItem : Val → Key → Option Val
-  | .dict ks vs, .str k => lookup k ks vs
+  | .dict ks vs, .str k => lookup (.str k) ks vs
+  | .dict ks vs, .int i => lookup (.int i) ks vs          -- `{1: x}[1]`, also `{True: x}[1]`, `{1.0: x}[1]`
   | .list xs, .int i =>
     let j := if i < 0 then i + xs.length else i
     if j < 0 then Option.none else xs[j.toNat]?
@@ -280,6 +315,17 @@ def getPath : Val → List Key → Option Val
     | some w => getPath w ks
     | Option.none => Option.none
 
+/-- a dict key as `json.dumps` writes it: `str` as is, the other scalars coerced to the text of their JSON
+    rendering (`{1: 0, None: 0, True: 0, 1.5: 0}` → `{"1": 0, "null": 0, "true": 0, "1.5": 0}`); the keys are written in
+    insertion order, whatever their types (no sorting, hence no comparison between keys) -/
+def DKey.json : DKey → Str
+  | .str s => jsonStr s
+  | .none => c!"\"null\""
+  | .bool true => c!"\"true\""
+  | .bool false => c!"\"false\""
+  | .int i => '"' :: (intStr i ++ c!"\"")
+  | .float h => '"' :: (halfStr h ++ c!"\"")
+
 mutual
 /-- `json.dumps(x, ensure_ascii=False)` -/
 def jsonify : Val → Str
@@ -294,8 +340,8 @@ def jsonify : Val → Str
 def jsonifyList : List Val → List Str
   | [] => []
   | x :: xs => jsonify x :: jsonifyList xs
-def jsonifyEntries : List Str → List Val → List Str
-  | k :: ks, v :: vs => (jsonStr k ++ c!": " ++ jsonify v) :: jsonifyEntries ks vs
+def jsonifyEntries : List DKey → List Val → List Str
+  | k :: ks, v :: vs => (k.json ++ c!": " ++ jsonify v) :: jsonifyEntries ks vs
   | _, _ => []
 end
 
